@@ -601,6 +601,8 @@ func (e *envT) bfs(p *scenario, deadline time.Time) (*vx.Stats, bfsInfo) {
 		info.Transport = "file:// remote, standalone file transfer"
 	}
 	seen := map[uint64]bool{}
+	dumping := os.Getenv("VERIF_C03_DUMP") != ""
+	discovered := map[uint64]string{}
 	fpCount := map[string]int{}
 	violTotal := map[string]int64{}
 	var frontier []node
@@ -743,6 +745,9 @@ func (e *envT) bfs(p *scenario, deadline time.Time) (*vx.Stats, bfsInfo) {
 				}
 				if !seen[d.main.post.Key] {
 					seen[d.main.post.Key] = true
+					if dumping {
+						discovered[d.main.post.Key] = fmt.Sprintf("exit=%d %s then `%s` => %v", d.main.res.Code, p.where(n.init, n.path), p.Ops[oi].Name, e.describe(d.main.post))
+					}
 					if !last {
 						next = append(next, node{snap: d.main.snap, st: d.main.post, init: n.init, path: path})
 					}
@@ -767,6 +772,15 @@ func (e *envT) bfs(p *scenario, deadline time.Time) (*vx.Stats, bfsInfo) {
 	}
 	for _, x := range info.slow {
 		info.Slowest = append(info.Slowest, x.s)
+	}
+	if dir := os.Getenv("VERIF_C03_DUMP"); dir != "" {
+		var lines []string
+		for k, v := range discovered {
+			lines = append(lines, fmt.Sprintf("%016x\t%s", k, v))
+		}
+		sort.Strings(lines)
+		os.MkdirAll(dir, 0755)
+		os.WriteFile(filepath.Join(dir, p.Name+".states"), []byte(strings.Join(lines, "\n")+"\n"), 0644)
 	}
 	info.States = len(seen)
 	info.ViolatingTransitions = violTotal
